@@ -410,6 +410,18 @@ def p1_exact_conversions(ctx: Ctx):
     good = len(tests) == 1 and isinstance(tests[0].body[0], ast.Raise)
     rounds = [s for s in walk_no_nested(fn) if isinstance(s, ast.Assign) and norm(s.value) == '_FP64.round(x)' and dotted(s.targets[0]) == 'r']
     ctx.check(good and len(rounds) == 1, NATIVE, fn, q, 'float(x): round to binary64, raise if inexact', 'conversion no longer refuses inexact values')
+    # ... on every path: a value is handed back only after that rounding-and-check, or when it already is a member of the
+    # binary64 context; and what is handed back is the encoding of the checked value
+    from ..cfg import CFG, describe_path, find_path
+    cfg = CFG(fn)
+    rnodes = [n for n in cfg.nodes_of('stmt') if n.ast in rounds]
+    member = [n for n in cfg.nodes_of('test') if norm(n.ast) == 'isinstance(x, Float) and x.ctx == _FP64']
+    for ret in cfg.returns():
+        p = find_path(cfg, cfg.entry, ret, avoid=lambda n: n in rnodes, edge_ok=lambda n, lab: not (n in member and lab is True))
+        ctx.check(p is None and norm(ret.ast.value) == 'bits_to_float(_FP64.encode(r))', NATIVE, ret.ast, q,     # type: ignore
+                  f'`{norm(ret.ast)[:60]}` hands back the checked binary64 value',
+                  'a value is returned without the binary64 rounding and its inexact check (a shortcut that scales the significand rounds silently: '
+                  'float(3 * 2**-1075) gives 1e-323 instead of raising)', path=describe_path(p, NATIVE) if p else None)
     node = repo.module(NATIVE).toplevel().get('_FP64')
     v = getattr(node, 'value', None)
     ctx.check(isinstance(v, ast.Call) and call_name(v) == 'IEEEContext' and [norm(a) for a in v.args][:2] == ['11', '64'], NATIVE, node, '_FP64',
@@ -531,6 +543,9 @@ MUTANTS = [
     Mutant('round-ignores-ndigits', REALS, "        if ndigits is not None:\n            raise NotImplementedError('rounding to decimal digits cannot be implemented exactly')\n", "", 'C05.P1',
            'finding F56 before its repair: round(RealFloat(2.5), 1) is the int 2'),
     Mutant('float-round-swallows-arguments', FLOATS, "        return self._real.__round__(*args, **kwargs)", "        return self._real.__round__()", 'C05.P1'),
+    Mutant('float-shortcut-by-scaling', NATIVE, "    else:\n        r = _FP64.round(x)\n        if r.inexact:", "    elif not (isinstance(x, Float) and x.is_nar()) and x.p <= 53 and -1074 <= x.e <= 1023:\n        import math\n        f = math.ldexp(x.c, x.exp)\n        return -f if x.s else f\n    else:\n        r = _FP64.round(x)\n        if r.inexact:", 'C05.P1',
+           'seeded change C05d: the leading digit is tested where the last one should be'),
+    Mutant('float-of-any-ieee-member', NATIVE, "    if isinstance(x, Float) and x.ctx == _FP64:", "    if isinstance(x, Float) and x.ctx is not None:", 'C05.P1'),
     Mutant('float-always-true', FLOATS, "    def __bool__(self):\n        \"\"\"Like a native number: false exactly for a zero (NaN is true).\"\"\"\n        return not self.is_zero()\n\n", "", 'C05.P1',
            'finding F55 before its repair: bool(Float(c=0)) is True'),
     Mutant('float-false-for-nan-too', FLOATS, "        return not self.is_zero()\n\n    def __float__", "        return not self._real.is_zero()\n\n    def __float__", 'C05.P1',
